@@ -5,7 +5,8 @@ import subprocess, sys, os, json, time
 REPO="/repo"
 args = sys.argv[1:]
 allp = "--all-props" in args
-args = [a for a in args if a != "--all-props"]
+nocontrol = "--no-control" in args
+args = [a for a in args if a not in ("--all-props", "--no-control")]
 mdir = "/verif/mutants"
 if "--dir" in args:
     i = args.index("--dir"); mdir = args[i+1]; del args[i:i+2]
@@ -23,7 +24,7 @@ for n in names:
     r = subprocess.run(["git","-C",REPO,"apply",patch],capture_output=True,text=True)
     if r.returncode != 0:
         print(n, "PATCH DOES NOT APPLY", r.stderr); continue
-    props = sorted(PLANS) if allp else sorted(set(expect[n]) | {"C01"})
+    props = sorted(PLANS) if allp else sorted(set(expect[n]) | (set() if nocontrol else {"C01"}))
     row = {}
     for p in props:
         if p not in PLANS: row[p] = "n/a"; continue
